@@ -65,7 +65,7 @@ structure InvB2 (a : ACfg) (s : St) : Prop where
   ev1 : s.evt = some true → s.cpc = .finished
   ev2 : s.cpc = .finished → s.evt ≠ some false
   ev0 : s.built = false → s.evt = none
-  ub : ∀ k, s.cpc = .user k → a.hasCb = true ∧ ∃ k0, a.cbBeh = .await k0
+  ub : (∃ k, s.cpc = .user k) ∨ s.cpc = .aborted → a.hasCb = true ∧ ∃ k0, a.cbBeh = .await k0
   ph : mon2Run s.trace2 = phase2 a s
 
 structure InvS (a : ACfg) (s : St) : Prop where
@@ -493,6 +493,7 @@ theorem resumeSoupClose_K {a : ACfg} {s : St} (t : Sess.Tid) (ib : InvB2 a s) (i
     · have h1 : InvB2 a { s with cpc := .aborted } ∧ InvS a { s with cpc := .aborted } := by
         obtain ⟨b, tc, bu, q, q', ac1, ac2, ac3, ev1, ev2, ev0, ub, ph⟩ := ib
         obtain ⟨nb, we, wv, ty, wq, d2, cc, hc', can, v2, dn, vn, da, vs⟩ := is
+        have hub := ub (Or.inl ⟨_, hc⟩)
         have hph' : mon2Run ({ s with cpc := .aborted } : St).trace2 = phase2 a { s with cpc := .aborted } := hph1
         constructor
         · refine ⟨?_, ?_, ?_, ?_, ?_, ?_, ?_, ?_, ?_, ?_, ?_, ?_, hph'⟩ <;> grind [midStage, lateStage]
@@ -501,10 +502,11 @@ theorem resumeSoupClose_K {a : ACfg} {s : St} (t : Sess.Tid) (ib : InvB2 a s) (i
     · split
       · have p := PreC.of_inv ib is hb (ib.q hb (by rw [hc]; simp)) (by rw [hc]; simp) (by rw [hc]; simp)
         obtain ⟨hD, hds⟩ := is.dn hb (Or.inr (by rw [hc]; rfl))
-        exact endCb_K t p hD hds (is.vn hb (by rw [hc]; rfl)) (ib.ac2 hb (by rw [hc]; rfl)) (ib.ub _ hc).1 hph1
+        exact endCb_K t p hD hds (is.vn hb (by rw [hc]; rfl)) (ib.ac2 hb (by rw [hc]; rfl)) (ib.ub (Or.inl ⟨_, hc⟩)).1 hph1
       · rename_i k'
         obtain ⟨b, tc, bu, q, q', ac1, ac2, ac3, ev1, ev2, ev0, ub, ph⟩ := ib
         obtain ⟨nb, we, wv, ty, wq, d2, cc, hc', can, v2, dn, vn, da, vs⟩ := is
+        have hub := ub (Or.inl ⟨_, hc⟩)
         have hph' : mon2Run ({ s with cpc := .user k' } : St).trace2 = phase2 a { s with cpc := .user k' } := hph1
         constructor
         · refine ⟨?_, ?_, ?_, ?_, ?_, ?_, ?_, ?_, ?_, ?_, ?_, ?_, hph'⟩ <;> grind [midStage, lateStage]
